@@ -260,6 +260,119 @@ def chains_of(f: FuncInfo) -> list[list[tuple[ast.expr, ast.AST]]]:
     return out
 
 
+def r07_2(ctx, counts) -> RuleResult:
+    """EBV: the node shortcut applies to the FIRST item only"""
+    from ..engine.cfg import CFG
+    from ..engine.dataflow import branch_facts
+    model: Model = ctx.model
+    res = RuleResult(
+        'R07.2', 'EBV-FIRST-ITEM',
+        'In XPathToken.boolean_value (fn:boolean) the `return True` taken because an item is an '
+        'XPathNode is reached only for the first item of the operand: for a list the tested '
+        'expression is obj[0]; inside the loop over an iterator the dominating facts include '
+        'that the item counter is still zero (the false edge of `if k`). F&O 2.4.3: a sequence '
+        'whose first item is a node is true; any other sequence of two or more items is '
+        'FORG0006, even when a later item is a node.')
+    tok = model.find_class('XPathToken')
+    f = tok.find_method('boolean_value')
+    if f is None:
+        raise AnalysisError('XPathToken.boolean_value vanished')
+    cfg = CFG(f.node)
+    facts = branch_facts(cfg)
+    xnode = model.find_class('XPathNode')
+    sites = 0
+    for nd in cfg.nodes:
+        if nd.kind != 'stmt' or not isinstance(nd.ast, ast.Return):
+            continue
+        v = nd.ast.value
+        if not (isinstance(v, ast.Constant) and v.value is True):
+            continue
+        node_facts = [fa for fa in facts[nd.id]
+                      if fa.startswith('+isinstance(') and 'XPathNode' in fa]
+        if not node_facts:
+            continue
+        sites += 1
+        subj = node_facts[0][len('+isinstance('):].split(',')[0]
+        first = False
+        why = ''
+        if subj.endswith('[0]'):
+            first, why = True, f'subject {subj} is the first element'
+        else:
+            # loop item: some counter fact `-k` / `+k == 0` / `-k > 0` must dominate
+            enclosing_for = [n for n in walk_local(f.node) if isinstance(n, ast.For)
+                             and any(x is nd.ast for b in n.body for x in ast.walk(b))]
+            counters = set()
+            for loop in enclosing_for:
+                for x in ast.walk(loop):
+                    if isinstance(x, ast.AugAssign) and isinstance(x.target, ast.Name) \
+                            and isinstance(x.op, ast.Add):
+                        counters.add(x.target.id)
+            for c in counters:
+                if f'-{c}' in facts[nd.id] or f'+{c} == 0' in facts[nd.id] or \
+                        f'-{c} > 0' in facts[nd.id] or f'+not {c}' in facts[nd.id]:
+                    first, why = True, f'counter {c} is known to be zero'
+            if not enclosing_for:
+                first, why = True, 'single item (not in a loop)'
+        res.instances.append(f'{f.key}: return True on isinstance({subj}, XPathNode): {why or "NOT first-item"}')
+        if first:
+            res.ok()
+        else:
+            res.fail(finding('R07.2', f, nd.ast, f'node shortcut on {subj} not first-only',
+                             f'`return True` for isinstance({subj}, XPathNode) is reachable for '
+                             f'an item that is not the first of the sequence (no dominating '
+                             f'zero-counter fact): (1, <node>) would be true instead of FORG0006'))
+    counts['ebv_node_shortcuts'] = sites
+    if sites < 2:
+        raise AnalysisError(f'boolean_value: only {sites} node shortcuts located (expected the '
+                            f'list form and the iterator form)')
+    return res
+
+
+def r07_3(ctx, counts) -> RuleResult:
+    """general comparison: every yielded operand pair passed the type dispatch"""
+    from ..engine.cfg import CFG
+    model: Model = ctx.model
+    res = RuleResult(
+        'R07.3', 'COMPARISON-TYPE-CHECK-MUST-PASS',
+        'In the operand-pair generator of general comparisons (the XPathToken method whose loop '
+        'over product(left, right) contains the `match op1` type dispatch), every path from the '
+        'loop header to a yield inside the loop passes through the match statement: no operand '
+        'pair is handed to the comparison without the XPTY0004 compatibility check of its own '
+        'two values.')
+    tok = model.find_class('XPathToken')
+    found = 0
+    for f in tok.methods.values():
+        for loop in [n for n in walk_local(f.node) if isinstance(n, ast.For)]:
+            matches = [s for s in loop.body if isinstance(s, ast.Match)]
+            if not matches or 'product' not in stmt_text(loop.iter):
+                continue
+            found += 1
+            cfg = CFG(f.node)
+            head = [nd for nd in cfg.nodes if nd.ast is loop and nd.kind == 'for']
+            mnodes = [nd for nd in cfg.nodes if nd.ast in matches]
+            if not head or not mnodes:
+                raise AnalysisError(f'{f.key}: loop/match not located in the CFG')
+            ys = [nd for nd in cfg.nodes if nd.ast is not None and nd.kind == 'stmt' and any(
+                isinstance(x, (ast.Yield, ast.YieldFrom)) for x in ast.walk(nd.ast))
+                and any(x is nd.ast for b in loop.body for x in ast.walk(b))]
+            for y in ys:
+                path = cfg.path_avoiding(head, lambda q, y=y: q is y, lambda q: q in mnodes)
+                res.instances.append(f'{f.key}: {stmt_text(y.ast)[:40]} after the type dispatch: '
+                                     f'{path is None}')
+                if path is None:
+                    res.ok()
+                else:
+                    res.fail(finding('R07.3', f, y.ast, f'{stmt_text(y.ast)[:40]} bypasses match',
+                                     f'`{stmt_text(y.ast)[:50]}` can be reached from the loop '
+                                     f'header without passing the `match` type dispatch '
+                                     f'({cfg.fmt_path(path)[:160]}): operand pairs of incomparable '
+                                     f'types are compared instead of raising XPTY0004'))
+    counts['comparison_generators'] = found
+    if found < 1:
+        raise AnalysisError('operand-pair generator with a match dispatch not located')
+    return res
+
+
 def run(ctx) -> dict:
     model: Model = ctx.model
     lat = Lattice(model)
@@ -370,7 +483,7 @@ def run(ctx) -> dict:
     counts['dispatch_branches'] = n_branches
     counts['virtual_relations'] = len(lat.virtual)
     return {
-        'results': [res], 'counts': counts,
+        'results': [res, r07_2(ctx, counts), r07_3(ctx, counts)], 'counts': counts,
         'explanation':
             'Dispatch-order soundness, decided over the class lattice of the source model: in '
             'every isinstance/match dispatch chain of the package (the comparison, EBV, '
